@@ -65,7 +65,7 @@ CONSTANTS
 CHECK_DEADLOCK %(deadlock)s
 """
 
-NDEF = {"N32": {"w1": 3, "w2": 2}, "N23": {"w1": 2, "w2": 3}, "N22": {"w1": 2, "w2": 2}, "N10": {"w1": 1, "w2": 0}, "N64": {"w1": 6, "w2": 4}}
+NDEF = {"N11": {"w1": 1, "w2": 1}, "N12": {"w1": 1, "w2": 2}, "N32": {"w1": 3, "w2": 2}, "N23": {"w1": 2, "w2": 3}, "N22": {"w1": 2, "w2": 2}, "N10": {"w1": 1, "w2": 0}, "N64": {"w1": 6, "w2": 4}}
 KDEF = {"KSetSet": {"w1": "set", "w2": "set"}, "KSetAdd": {"w1": "set", "w2": "add"}, "KSetRep": {"w1": "set", "w2": "replace"}}
 
 
@@ -81,7 +81,7 @@ def check_c05(prop, tier, seed):
     run = Run(prop, tier, seed)
     quick = tier == "quick"
     # design
-    designs = [("N32", "KSetSet", ("r1",), 3), ("N23", "KSetAdd", ("r1",), 2), ("N22", "KSetRep", ("r1", "r2"), 1)]
+    designs = [("N32", "KSetSet", ("r1",), 3), ("N23", "KSetAdd", ("r1",), 2), ("N22", "KSetRep", ("r1", "r2"), 1), ("N11", "KSetSet", ("r1", "r2"), 2)]
     if not quick:
         designs += [("N64", "KSetSet", ("r1",), 7), ("N32", "KSetSet", ("r1", "r2"), 4), ("N10", "KSetSet", ("r1",), 2)]
     for n, k, rd, loss in designs:
@@ -102,7 +102,7 @@ def check_c05(prop, tier, seed):
         plans.append((n, "KSetSet", [{"n": NDEF[n], "kind": KDEF["KSetSet"], "readers": {"r1": "get", "r2": "gat"}, "losses": min(nn + 1, 3 if quick else 7), "pre": "w1"}],
                       1200 if quick else 30000, ("r1", "r2"), "RGetGat"))
     # (b) two writers and a reader
-    for n, k in (("N32", "KSetSet"), ("N23", "KSetAdd"), ("N22", "KSetRep")) + (() if quick else (("N23", "KSetSet"), ("N64", "KSetSet"), ("N32", "KSetRep"))):
+    for n, k in (("N32", "KSetSet"), ("N23", "KSetAdd"), ("N22", "KSetRep"), ("N11", "KSetSet"), ("N12", "KSetSet")) + (() if quick else (("N23", "KSetSet"), ("N64", "KSetSet"), ("N32", "KSetRep"), ("N11", "KSetRep"))):
         plans.append((n, k, [{"n": NDEF[n], "kind": KDEF[k], "readers": {"r1": "get"}, "losses": 0, "pre": ""},
                              {"n": NDEF[n], "kind": KDEF[k], "readers": {"r1": "get"}, "losses": 1, "pre": ""}], 1000 if quick else 40000, ("r1",), "RGet"))
         plans.append((n, k, [{"n": NDEF[n], "kind": KDEF[k], "readers": {"r1": "gat"}, "losses": 0, "pre": ""},
@@ -152,7 +152,9 @@ def check_c05(prop, tier, seed):
             while events[j]["ev"] != "reset":
                 j -= 1
             rs = events[j]
-            if m["kind"] in ("Step",):
+            if m["kind"] in ("Step", "Model"):
+                # the handler's request sequence or result differs from the specification's while the
+                # bytes returned are still a miss or one writer's complete value: drift, not a verdict
                 drift += 1
                 continue
             key = (j, m["kind"])
